@@ -44,7 +44,7 @@ func init() {
 		"(FS_, FS-x, fs_x, XS_x, FS_x.y, FS_x/y, FS_REMOTE_..., 17+ character suffix, control / non-ASCII bytes, 4-5 KiB fields, empty) plus byte mutations of accepted paths; the server then answers 0, -1 or closes; " +
 		"oracle: a filesystem-effect observer snapshots every candidate target (raw path, Clean, relative to cwd, /tmp/<leaf>, symlink-resolved, each sandbox dir, all tagged names in /tmp) before, at the moment the client reports its result, and after; " +
 		"a three-valued reference validator decides must-accept / must-reject / either: must-reject => nothing created at any instant and a non-zero result reported; always <= 1 directory, exactly /tmp/<leaf>, mode 0700, gone afterwards. " +
-		"server side: the real server against a scripted client leaving nothing / a file / a FIFO / a symlink / directories with modes 0700..0000 / a directory owned by nobody / with subdirectories, answering 0 or -1: " +
+		"server side: the real server against a scripted client leaving nothing / a file / a FIFO / a socket / a device node / a symlink / directories with modes 0700..0000 / a directory owned by nobody / with subdirectories, answering 0 or -1: " +
 		"success <=> result 0 and a real 0700 directory; identity = owner; path removed; non-trivial = path not of a must-accept form, or an object other than the honest directory; distinct by path / object")
 }
 
@@ -492,7 +492,9 @@ type ServerCase struct {
 	Result int    `json:"result"`
 }
 
-var objects = []string{"nothing", "dir0700", "dir0750", "dir0755", "dir0777", "dir0000", "dir0500", "file", "fifo", "symlink-to-dir", "symlink-dangling", "dir-nobody", "dir-with-subdir", "dir0700-setgid"}
+var objects = []string{"nothing", "dir0700", "dir0750", "dir0755", "dir0777", "dir0000", "dir0500", "file", "fifo", "symlink-to-dir", "symlink-dangling", "dir-nobody", "dir-with-subdir", "dir0700-setgid",
+	// the other file types, owner-only: their st_mode type bits overlap S_IFDIR's (socket 0140000, block device 0060000) or not (character device 0020000)
+	"socket0700", "blockdev0700", "chardev0700", "file0600"}
 
 func runServer(c ServerCase) string {
 	fsMu.Lock()
@@ -527,6 +529,18 @@ func runServer(c ServerCase) string {
 			_ = os.WriteFile(path, []byte("x"), 0o700)
 		case "fifo":
 			_ = syscall.Mkfifo(path, 0o700)
+		case "socket0700":
+			if l, err := net.ListenUnix("unix", &net.UnixAddr{Name: path, Net: "unix"}); err == nil {
+				l.SetUnlinkOnClose(false)
+				_ = l.Close()
+				_ = os.Chmod(path, 0o700)
+			}
+		case "blockdev0700": // (needs privilege; without it nothing is left, which must be refused as well)
+			_ = syscall.Mknod(path, syscall.S_IFBLK|0o700, 7<<8|99)
+		case "chardev0700":
+			_ = syscall.Mknod(path, syscall.S_IFCHR|0o700, 1<<8|3)
+		case "file0600":
+			_ = os.WriteFile(path, []byte("x"), 0o600)
 		case "symlink-to-dir":
 			_ = os.Mkdir(target, 0o700)
 			_ = os.Symlink(target, path)
